@@ -59,6 +59,10 @@ LAYOUTS = [
 ]
 # Google only: named return/yield items WITHOUT a type ("sig"): the annotation comes from the parent's return annotation
 # (whole annotation for a single item, the i-th tuple element for several items, the yield/return slot of a Generator)
+GOOGLE_FENCE_LAYOUTS = [
+    [("fence", 0, False), ("parameters", 1, True), ("returns", 1, True)],
+    [("parameters", 1, False), ("fence", 0, False), ("raises", 1, False)],
+]
 GOOGLE_SIG_LAYOUTS = [
     ([("returns", 1, "sig")], "tuple[int, str]"),
     ([("returns", 2, "sig")], "tuple[int, str]"),
@@ -106,6 +110,15 @@ def render_google(layout, names, descs, second, title):
         if kind == "note":
             lines += ["Note: " + title if title else "Note:", "    Body text."]
             want.append(("admonition", "note", title if title else "Note", "Body text."))
+            continue
+        if kind == "fence":
+            # free text holding an INDENTED fenced code block (a block nested under a list item): the sections written after it must still be found
+            block = ["- item:", "", "    ```", "    Args:", "    ```"]
+            lines += block
+            if want[-1][0] == "text":  # consecutive free paragraphs form one text section
+                want[-1] = ("text", want[-1][1] + "\n\n" + "\n".join(block))
+            else:
+                want.append(("text", "\n".join(block)))
             continue
         lines.append({"parameters": "Args:", "other parameters": "Other Parameters:", "returns": "Returns:", "yields": "Yields:", "raises": "Raises:", "warns": "Warns:", "attributes": "Attributes:"}[kind])
         items = []
@@ -171,25 +184,34 @@ def render_sphinx(layout, names, descs, second, title):
     lines = ["Summary.", ""]
     params, raises, rets, attrs = [], [], [], []
     it = 0
+    cont = "    :r:`x` m"  # a continuation line that starts with an inline role (a colon), indented under its field
+
+    def field(line, ds):
+        lines.append(line)
+        if second:
+            lines.append(cont)
+            return ds + " " + cont.strip()
+        return ds
+
     for kind, n, typed in layout:
         for _ in range(n):
             nm, ds = names[it % 2], descs[it % 2]
             it += 1
             if kind == "parameters":
-                lines.append(f":param {nm}: {ds}")
+                ds = field(f":param {nm}: {ds}", ds)
                 if typed:
                     lines.append(f":type {nm}: int")
                 params.append((nm, "int" if typed else "SIG", ds))
             elif kind == "raises":
-                lines.append(f":raises E{nm}: {ds}")
+                ds = field(f":raises E{nm}: {ds}", ds)
                 raises.append(("E" + nm, "E" + nm, ds))
             elif kind == "returns":
-                lines.append(f":returns: {ds}")
+                ds = field(f":returns: {ds}", ds)
                 if typed:
                     lines.append(":rtype: int")
                 rets.append(("", "int" if typed else "RET", ds))
             elif kind == "attributes":
-                lines.append(f":var {nm}: {ds}")
+                ds = field(f":var {nm}: {ds}", ds)
                 if typed:
                     lines.append(f":vartype {nm}: int")
                 attrs.append((nm, "int" if typed else None, ds))
@@ -231,7 +253,7 @@ def observed(secs, sphinx=False):
 def _make(style, layouts):
     @obligation(
         pid="C13", name=f"{style}_roundtrip", timeout=tiered(280, 1500), path_timeout=60.0,
-        shards=lambda: [(f"layout {i}: {lay}", None, [dict(layout=i, second=sec) for sec in ((False, True) if style != "sphinx" else (False,))]) for i, lay in enumerate(layouts)],
+        shards=lambda: [(f"layout {i}: {lay}", None, [dict(layout=i, second=sec) for sec in (False, True)]) for i, lay in enumerate(layouts)],
         pre=lambda layout, second, n1, n2, d1, d2, title: all(1 <= len(n) <= tiered(1, 2) and all(c in "pq" for c in n) for n in (n1, n2)) and n1 != n2
         and all(1 <= len(d) <= 2 and d[0] == "d" and all(c in ("d:" if style != "sphinx" else "de") for c in d) for d in (d1, d2)) and len(title) <= 1 and all(c in "t" for c in title),
         drives=[{"google": G.parse_google, "numpy": NP.parse_numpy, "sphinx": SP.parse_sphinx}[style]],
@@ -272,6 +294,6 @@ def _make(style, layouts):
     return roundtrip
 
 
-_make("google", LAYOUTS + [lay for lay, _ in GOOGLE_SIG_LAYOUTS])
+_make("google", LAYOUTS + [lay for lay, _ in GOOGLE_SIG_LAYOUTS] + GOOGLE_FENCE_LAYOUTS)
 _make("numpy", [lay for lay in LAYOUTS if not any(k == "text" for k, _, _ in lay)])  # numpydoc has no free text between sections
 _make("sphinx", SPHINX_LAYOUTS)
